@@ -1,15 +1,16 @@
 from props import P
 
 CFG = P(
-        harness=["harness/C06.cc"], harness_deps=["harness/C06_r2.hh"], srcs=["Image.cc", "Strings.cc", "Filesystem.cc", "Process.cc", "Time.cc", "Encoding.cc"],
+        harness=["harness/C06.cc"], harness_deps=["harness/C06_r2.hh", "harness/C06_r3.hh"], srcs=["Image.cc", "Strings.cc", "Filesystem.cc", "Process.cc", "Time.cc", "Encoding.cc"],
         oracle="C06",
         flags=[], cxxflags=[], ldflags=[],
-        deadline={"quick": 900, "thorough": 5400},
+        deadline={"quick": 3600, "thorough": 10800},
         rule="a save/load case is non-trivial when its pixel pattern is not constant (coordinate-coded, control bytes, high bit, header-like text), "
              "so a transposed, dropped or re-ordered sample is visible; every generated input variant and every truncated prefix is non-trivial "
              "(it drives the header parser and the row loops of its container); every call history (three calls in a fresh process), every ordered pair of object states "
              "and every overload/stream/context case is non-trivial (its images are coordinate-coded or byte-structured, and consecutive calls differ in size class, stride, alpha, width or container); "
-             "the don't-care probes of section apis are not counted",
+             "the don't-care probes of section apis are not counted; a transient-fault case is non-trivial when its fault was actually answered (the callback index exists in that delivery) - "
+             "indices beyond the last callback are listed as 'vacuous' in the outcome histogram, faults inside a netpbm text header as 'dont-care'",
         bounds={
             "quick": "save->load: dims {1..8}x{1..5} u {64x1,1x64,63x2,33x3,17x17} (all widths mod 4) x alpha x channel width {8,16,32,64} x 6 patterns x {PPM,BMP,PNG}, plus boundary dims "
                      "{255x1,256x1,257x2,1x257,2x256,65536x1,1x65537,300x211} x alpha x {8,16}-bit; every 8-bit output file decoded by the Python decoders; "
@@ -19,13 +20,19 @@ CFG = P(
                      "every prefix of every file of 8 small dims (core variants; extra variants over 2 dims; phosg's own PPM/BMP output), each prefix also from a non-seekable short-read stream and from a "
                      "medium failing with EIO from the same offset on; call histories: every ordered pair (a,b) of 59 save/load calls run as a,b,a in a fresh process; object states: 15 states x 15 x "
                      "{copy-assign, move-assign, swap} + self-assignment/copy/move construction/set_channel_width/set_has_alpha per state; APIs: 9 images x 3 formats x 14 ways to save x contexts, "
-                     "9 variants x 2 dims x 3 stream kinds x 5 contexts, raw-data constructors, 30 don't-care probes",
+                     "9 variants x 2 dims x 3 stream kinds x 5 contexts, raw-data constructors, 30 don't-care probes; "
+                     "transient faults: every complete file of 4 small dims {1x1,2x2,3x2,5x3} (core variants; extra variants over 2 dims; phosg's own PPM/BMP output) delivered {1,3,7,64,4096} bytes per read callback "
+                     "with exactly one callback - every index 0..N - answered -1/EINTR and -1/EAGAIN, BMP also from a stream that cannot seek (1 and 7 bytes per callback), and for the 3x2 core files every ordered pair of faulting callbacks with equal errno at 3 bytes per callback; write side: 6 images x 3 formats through save(FILE*) onto a "
+                     "sink x {unbuffered, 16-byte buffer, default buffer} x every write callback index x the callback takes {nothing, one byte, half} x {EINTR, EAGAIN}",
             "thorough": "save->load: dims {1..64}x{1,2,3,5} u {1..8}x{1..64} u {17x17,33x47,63x61,64x64} x alpha x width x 6 patterns x 3 formats + 16 boundary dims up to 65537x2 and 1000x1000, all 8-bit files decoded "
                         "independently; 180 core variants x 221 dims x 3 patterns + 140 extra x 12 dims x 3 patterns, 11 deliveries + re-save each; every prefix of every file of 12 dims including 64x1, 63x2, 33x3, 13x9; "
-                        "call histories: every ordered pair of the 59 calls followed by each of 12 observing calls (a, b, c); object states: every (dst, src1, src2) triple x 3 transfer kinds; APIs: full product of ways to save x contexts",
+                        "call histories: every ordered pair of the 59 calls followed by each of 12 observing calls (a, b, c); object states: every (dst, src1, src2) triple x 3 transfer kinds; APIs: full product of ways to save x contexts; "
+                        "transient faults: single faults over the files of 12 dims (the truncation dims; non-seekable BMP delivery 1, 3, 7 and 64 bytes per callback), plus every ordered pair of faulting callbacks x errno pair for the 1x1 and 3x2 core files (3, 7, 64, 4096 bytes per callback); "
+                        "write side: 10 images",
         },
         explanation="E-ENUM over the real Image::save/Image(FILE*) with exact-size heap copies under ASan; risky loads run in forked children so a heap overflow is a recorded "
-                    "outcome, not the end of the shard; truncation = fault enumeration over every prefix length (memory stream, non-seekable stream, read error); call histories run in fresh forked "
+                    "outcome, not the end of the shard; truncation = fault enumeration over every prefix length (memory stream, non-seekable stream, read error); transient faults = environment-answer enumeration over every "
+                    "read (write) callback of an fopencookie stream answering -1/EINTR or -1/EAGAIN once (twice) and then carrying on, batches of files per forked child; call histories run in fresh forked "
                     "processes so that state carried between calls is reproducible; oracle = pattern regenerated independently + stdlib-only PNG/BMP/netpbm decoders in oracles/C06.py",
         assumptions=[
             "pixel contents are six structured patterns (zeros, all-ones, coordinate hash, the bytes 0A 0D 1A 00 FF, high bit, header-like text), not all 2^(8n) contents",
@@ -36,20 +43,26 @@ CFG = P(
             "images embedded at a non-zero stream position, raw-data constructors on short files, channel_width defaulted to 0 in the raw-data constructors, values produced by set_channel_width/set_has_alpha "
             "(only that their result survives save -> load)",
             "truncation means a prefix of a valid file, delivered by a memory stream or a non-seekable stream, or a medium that fails with EIO from that offset on; arbitrary corrupted headers are outside the statement",
+            "a transient read fault (one read callback of the stream answers -1 with EINTR or EAGAIN, later callbacks deliver normally from the same offset) is treated like the statement's truncation clause: the load "
+            "must throw or decode exactly the complete file's picture. Judged only where binary data is being delivered (the whole BMP file, the netpbm raster); a fault answered while the netpbm text header is still being "
+            "delivered is executed and recorded, not judged (how stdio's text functions tokenise around an error is outside the statement; HEAD then accepts some files with other dims or a shifted raster - see the notes)",
+            "a transient write fault (one write callback takes fewer bytes than given and reports EINTR/EAGAIN) is judged only when save() returns normally AND the stream's error flag is clear AND fflush succeeds: "
+            "then the sink must hold exactly the bytes of save(Format); an exception or a stream that reports the error is accepted",
             "a repeated save in one process may produce a different encoding as long as it is valid (recorded as an outcome class, never a violation by itself)",
             "zlib's inflate (through Python's zlib module) is trusted; the chunk CRC is computed by a table-driven implementation written in the oracle and cross-checked with zlib.crc32",
         ],
         engine="E-ENUM",
-        technique="exhaustive enumeration of (dimensions, alpha, channel width, pattern, container variant, delivery), of every truncation point, of call histories, object-state pairs and API overloads/contexts on the real codec, "
+        technique="exhaustive enumeration of (dimensions, alpha, channel width, pattern, container variant, delivery), of every truncation point, of every transient read/write fault position, of call histories, object-state pairs and API overloads/contexts on the real codec, "
                   "with independent Python decoders and ASan/LSan as oracles",
         level_text="Every image of the dimension/alpha/width/pattern grid is saved by the real code as PPM, BMP and PNG, loaded back (PPM, BMP) and compared bit for bit; every 8-bit "
                    "output file is decoded by independent stdlib-only decoders (PNG chunk CRCs, zlib stream, IHDR fields, filters; BMP header fields, row order, padding; P6/P7 incl. MAXVAL) and compared "
                    "pixel by pixel with an independently regenerated pattern. Every supported input variant (P5/P6/P7 tuple types, header whitespace forms and line orders, MAXVAL boundaries, BMP 24/32 BI_RGB, BI_BITFIELDS "
                    "with all 24 byte-mask permutations, both row orders, 40/52/56/108/124-byte headers, pixel-array gaps) is generated by code that shares nothing with phosg, validated by the Python decoders, and loaded "
                    "under ASan through every loading overload and stream kind (memory, short reads, real files, pipes, stdin); every prefix length of every small file is loaded and must throw or decode identically with no "
-                   "sanitizer report and a balanced heap. Every ordered pair (thorough: every pair followed by each of 12 observing calls) of 59 boundary save/load calls is executed as one call history in a fresh process, every ordered pair of 15 object states "
+                   "sanitizer report and a balanced heap; every complete small file is also delivered with exactly one read callback (every index, five delivery granularities, seekable or not) answering EINTR/EAGAIN "
+                   "and must then throw or decode to exactly the full picture, and every save onto a sink whose write callback once takes only part of its bytes must fail visibly or leave exactly the right file. Every ordered pair (thorough: every pair followed by each of 12 observing calls) of 59 boundary save/load calls is executed as one call history in a fresh process, every ordered pair of 15 object states "
                    "is copy-assigned, move-assigned and swapped and the result saved, and every save overload/stream kind is exercised in a catch handler, during stack unwinding and under foreign errno values. "
                    "Within these bounds the result is a complete enumeration, not a sample.",
         level_note="Trusted: zlib inflate, glibc fmemopen/open_memstream/fopencookie, the six pixel patterns as representatives of 'all pixel contents'. Not covered: dimensions above 65537x2 / 1000x1000, "
-                   "byte order of wide netpbm samples against third-party readers, corrupted (non-prefix) files, short writes and write errors (stdio hides them from the library).",
+                   "byte order of wide netpbm samples against third-party readers, corrupted (non-prefix) files, write errors that only show when the caller flushes or closes the stream, failing seeks, transient faults inside netpbm text headers (recorded, not judged), real signals on real pipes (modelled by the cookie stream).",
     )
